@@ -237,6 +237,7 @@ class Result:
         cov["samples"] = self.samples or ["<no sample recorded>"]
         cov["counters"] = dict(sorted(self.counters.items()))
         cov["known_findings_observed"] = dict(self.known)
+        cov["tree_checked"] = tree_identity()
         if self.inconclusive:
             cov["inconclusive_reasons"] = list(self.inconclusive)
         if evaluations <= 0 or distinct_nontrivial < 2 or not floor_ok:
@@ -254,8 +255,10 @@ class Result:
             "wall_s": round(time.time() - self.t0, 3),
             "violations": len(self.violations),
         }
-        out = VERIF / "evidence" / f"{self.prop}.json"
-        out.parent.mkdir(exist_ok=True)
+        # evidence/ only ever describes runs against /repo itself; a run against a scratch tree (KIO_REPO=..., used to try seeded
+        # changes) leaves its report under the git-ignored .scratch/
+        out = (VERIF / "evidence" if REPO == pathlib.Path("/repo") else VERIF / ".scratch" / "evidence") / f"{self.prop}.json"
+        out.parent.mkdir(parents=True, exist_ok=True)
         tmp = out.with_suffix(".json.tmp")
         tmp.write_text(json.dumps(ev, indent=1, sort_keys=False) + "\n")
         os.replace(tmp, out)
@@ -276,6 +279,19 @@ class Result:
         print(f"{self.prop}: held on {evaluations} evaluations ({distinct_nontrivial} distinct non-trivial) "
               f"tier={self.tier} seed={self.seed} in {ev['wall_s']}s")
         return EXIT_HELD
+
+
+def tree_identity() -> dict:
+    """Which tree the run executed: path, HEAD and whether the working tree differs from HEAD."""
+    import subprocess
+
+    def git(*a: str) -> str:
+        try:
+            return subprocess.run(["git", "-C", str(REPO), *a], capture_output=True, text=True, timeout=30).stdout.strip()
+        except Exception:  # noqa: BLE001
+            return "?"
+
+    return {"path": str(REPO), "head": git("rev-parse", "--short", "HEAD"), "working_tree_modified": bool(git("status", "--porcelain", "--", "src", "codegen"))}
 
 
 def _merge_cov(key: str, cur: object, v: object) -> object:
